@@ -60,6 +60,11 @@ def cases(tier, rng):
                     yield Case("notes.augment", [s], "aug/octaves")
                     yield Case("notes.diminish", [s], "dim/octaves")
                     yield Case("notes.is_valid_note", [s], "valid/octaves")
+    for s in ("C" + "#" * 1500, "E" + "b" * 2401, "A" + "#b" * 1200 + "b"):
+        for f in ("notes.note_to_int", "notes.is_valid_note", "notes.reduce_accidentals", "notes.remove_redundant_accidentals",
+                  "notes.augment", "notes.diminish"):
+            yield Case(f, [s], f.split(".")[1] + "/very-long")
+        yield Case("notes.is_enharmonic", [s, "C"], "enh/very-long")
     for letter in LETTERS:
         for a0 in (-2, 0, 1):
             for d in (12, -12, 24, -24, 11, 13, -11, -13, 0):
